@@ -14,6 +14,9 @@ def run(res, tier, seed, replay):
     histlib.check_histories(res, "c03", n, seed + 3, "ranges", max_lifetimes=3 if tier == "quick" else 6, extra_lines=histlib.CORPUS)
     # synthetic arenas: functions packed at 16-byte pitch next to the target (also straddling a page), and targets that
     # are forwarding stubs (jmp rel32 to a neighbour): only the named entry may change, the neighbours keep their bytes and values
+    # between two lifetimes somebody else maps code over the page of the trampoline the first lifetime released
+    mo = [(f"m{i} r0,r1,fk0,fk1,fk2,fk3 I:r{i % 2}:raw:0,C:r0|MAPOVER,I:r{(i + 1) % 2}:clo:1,C:r1|I:r0:fake:2", [[f"I:r{i % 2}:raw:0", "C:r0"], ["MAPOVER", f"I:r{(i + 1) % 2}:clo:1", "C:r1"], ["I:r0:fake:2"]]) for i in range(4)]
+    histlib.check_histories(res, "c03", 0, seed + 34, "ranges", extra_lines=mo)
     import arenalib, random
     rr = random.Random(seed + 33)
     modes = ["neigh"] * 6 + ["straddle"] * 6 + ["alias"] * 6
